@@ -36,6 +36,7 @@ type Options struct {
 	Shard, Of   int
 	MaxPaths    int64
 	MaxFindings int
+	KnownLabels []string // assertion labels of recorded (known) findings: reported, but they do not stop the exploration
 	SolverName  string
 	TimeoutMs   int
 	LogDir      string
@@ -53,6 +54,7 @@ type Result struct {
 	Status       string     `json:"status"` // "ok" | "violation" | "inconclusive" | "fault"
 	Stats        *Stats     `json:"stats"`
 	Findings     []*Finding `json:"findings"`
+	KnownSeen    int        `json:"known_label_findings"`
 	Samples      []Sample   `json:"samples"`
 	SolverQ      int        `json:"solver_queries"`
 	SolverS      float64    `json:"solver_s"`
@@ -195,7 +197,7 @@ func (s *Session) RunBatch(work [][]int64, budget int64, maxDur time.Duration) [
 			s.complete, s.stopReason = false, "time budget exhausted"
 			break
 		}
-		if len(res.Findings) >= opt.MaxFindings {
+		if len(res.Findings)-res.KnownSeen >= opt.MaxFindings {
 			s.complete, s.stopReason = false, "stopped after findings"
 			break
 		}
@@ -394,7 +396,18 @@ func (p *Program) NewSession(pkg *ssa.Package, opt Options) *Session {
 	process := func(prefix []int64, countStats bool) [][]int64 {
 		e, outcome := runPath(prefix)
 		for _, f := range e.finds {
-			if len(res.Findings) < opt.MaxFindings {
+			known := false
+			for _, kl := range opt.KnownLabels {
+				if f.Label == kl {
+					known = true
+				}
+			}
+			if known {
+				if res.KnownSeen < 3 {
+					res.KnownSeen++
+					res.Findings = append(res.Findings, f)
+				}
+			} else if len(res.Findings)-res.KnownSeen < opt.MaxFindings {
 				res.Findings = append(res.Findings, f)
 			}
 		}
@@ -505,7 +518,7 @@ func (p *Program) MainPackage(pattern string) *ssa.Package {
 }
 
 // FindingsCount reports the findings recorded so far in this session.
-func (s *Session) FindingsCount() int { return len(s.res.Findings) + len(s.res.Races) }
+func (s *Session) FindingsCount() int { return len(s.res.Findings) - s.res.KnownSeen + len(s.res.Races) }
 
 // Failed reports that the session could not be set up (no such harness, solver did not start).
 func (s *Session) Failed() bool { return s.solver == nil }
@@ -559,10 +572,11 @@ func MergeResults(harness string, parts []*Result, open int, complete bool, reas
 			}
 		}
 		for _, f := range r.Findings {
-			if len(res.Findings) < maxFindings {
+			if len(res.Findings) < maxFindings+6 {
 				res.Findings = append(res.Findings, f)
 			}
 		}
+		res.KnownSeen += r.KnownSeen
 		for _, sm := range r.Samples {
 			if len(res.Samples) < 12 {
 				res.Samples = append(res.Samples, sm)
